@@ -161,7 +161,8 @@ def stars(ctx):
 
 
 def alts(ctx):
-    return tuple((c[1], c[2]) for c in ctx if c[0] == "alt")
+    # (one decision met twice on the way — an `if let` around a value whose Display takes the same decision — is one decision)
+    return tuple(dict.fromkeys((c[1], c[2]) for c in ctx if c[0] == "alt"))
 
 
 # ---- struct groups ------------------------------------------------------------------------------
